@@ -12,8 +12,10 @@ package c16
 import (
 	"fmt"
 	"math/rand"
+	"os"
 	"sort"
 	"strings"
+	"time"
 
 	"github.com/bitcoin-sv/block-headers-service/verifharness/ev"
 	"github.com/bitcoin-sv/block-headers-service/verifharness/gen"
@@ -23,6 +25,8 @@ import (
 )
 
 const adminTokenValue = rig.AdminToken
+
+var debugTiming = os.Getenv("C16_DEBUG") != ""
 
 // Spec is the check registration.
 func Spec() ev.Spec {
@@ -55,10 +59,15 @@ type store struct {
 	auxDigest                           string
 	auxTokens, auxHooks                 savedTable
 
-	sigCache  map[string]string
-	sigCount  map[string]int
-	histShown map[string]bool
-	reached   map[string]int
+	timing      map[string]time.Duration
+	sigCache    map[string]string
+	sigCount    map[string]int
+	histShown   map[string]bool
+	reached     map[string]int
+	idx         int
+	coarseElems bool            // label list elements that name nothing stored as "not-stored" (set by generalise)
+	seen        map[string]bool // (route, class vector, status) triples seen on this store
+	corpus      []*Req          // requests that showed a new triple: seeds for novelty-guided mutation
 }
 
 func (s *store) longestAt(h int64) string {
@@ -111,18 +120,24 @@ func (s *store) ingest(rng *rand.Rand) error {
 			stored++
 		}
 	}
-	for i := uint32(0); i < 8; i++ {
+	for i := uint32(0); i < 12; i++ {
 		if err := s.readBack(); err != nil {
 			return err
 		}
-		if len(s.longest) >= 4 {
-			break
+		var h refmodel.Hdr
+		switch {
+		case len(s.longest) < 4: // extend the main chain
+			tip, ok := refmodel.ParseHash(s.tip)
+			if !ok {
+				return fmt.Errorf("tip hash %q unparsable", s.tip)
+			}
+			h = hdr(tip, gen.BitsHeavy, 900001+i)
+		case len(s.stale) < 1: // the random part held no fork of the main chain: branch off genesis with little work
+			h = hdr(g, gen.BitsLight, 900041+i)
+		default:
+			i = 99
+			continue
 		}
-		tip, ok := refmodel.ParseHash(s.tip)
-		if !ok {
-			return fmt.Errorf("tip hash %q unparsable", s.tip)
-		}
-		h := hdr(tip, gen.BitsHeavy, 900001+i)
 		s.hist.Hdrs = append(s.hist.Hdrs, h)
 		if s.st.Add(h).Code() == "stored" {
 			stored++
@@ -241,11 +256,17 @@ func body(r *ev.Run) {
 	defer st.Destroy()
 	tw := newTwin(st.Engine)
 	nStores := r.Pick(32, 160)
-	perStore := r.Pick(1900, 12500)
+	perStore := r.Pick(2000, 13500)
+	for _, rt := range tw.routes {
+		r.Require("reached "+rt.key(), 1)
+	}
 	for k := 0; k < nStores; k++ {
 		id := fmt.Sprintf("s%d", k)
-		r.Do(id, func() {
-			s := &store{r: r, st: st, tw: tw, id: id, sigCache: map[string]string{}, sigCount: map[string]int{}, histShown: map[string]bool{}, reached: map[string]int{}}
+		if !r.MineIdx(id, k) {
+			continue
+		}
+		r.Exec(id, func() {
+			s := &store{r: r, st: st, tw: tw, id: id, idx: k, seen: map[string]bool{}, sigCache: map[string]string{}, timing: map[string]time.Duration{}, sigCount: map[string]int{}, histShown: map[string]bool{}, reached: map[string]int{}}
 			if err := s.ingest(r.Rand(id + "/history")); err != nil {
 				r.Violate("harness|store", err.Error(), id, nil)
 				return
@@ -262,29 +283,79 @@ func body(r *ev.Run) {
 	}
 }
 
+// want: which cases execute under a replay filter. Replaying a random-phase case re-executes the whole
+// store run up to that case, because the novelty corpus it may draw from is built by the earlier cases.
 func (s *store) want(caseID string) bool {
 	o := s.r.Only
-	return o == "" || o == caseID || strings.HasPrefix(o, caseID+"/") || o == s.id
+	return o == "" || o == caseID || strings.HasPrefix(o, caseID+"/") || o == s.id || strings.HasPrefix(o, s.id+"/r")
 }
 
-// run executes the grid and then random requests until the per-store budget is used.
+// reports: under a replay filter only the wanted case reports.
+func (s *store) reports(caseID string) bool {
+	o := s.r.Only
+	return o == "" || o == caseID || o == s.id
+}
+
+// gridHere decides which routes get their full grid on this store: API routes on every second
+// store (alternating), routes outside the API on every fourth, the sleeping pprof routes on every eighth.
+func (s *store) gridHere(i int, rt *routeInfo) bool {
+	switch {
+	case rt.slow:
+		return s.idx%8 == 0
+	case !rt.api:
+		return s.idx%4 == 0
+	default:
+		return (i+s.idx)%2 == 0
+	}
+}
+
+// run executes the grids and then random / novelty-guided requests until the per-store budget is used.
 func (s *store) run(budget int) {
 	r := s.r
 	routes := s.tw.routes
 	n := 0
-	// grid
-	for _, rt := range routes {
+	for i, rt := range routes {
 		rng := r.Rand(s.id + "/grid/" + rt.key())
-		for _, q := range s.grid(rng, rt) {
-			caseID := fmt.Sprintf("%s/g%d", s.id, n)
+		reqs := s.grid(rng, rt)
+		if !s.gridHere(i, rt) {
+			reqs = reqs[:1] // the baseline request only
+		}
+		for k, q := range reqs {
+			caseID := fmt.Sprintf("%s/g%d.%d", s.id, i, k)
 			n++
 			if s.want(caseID) {
+				t0 := time.Now()
 				s.evaluate(caseID, q)
+				if debugTiming {
+					s.timing[rt.key()] += time.Since(t0)
+				}
 			}
 		}
 	}
+	if debugTiming { // development aid only (C16_DEBUG=1): where does the wall time go
+		for k, v := range s.timing {
+			fmt.Fprintf(os.Stderr, "timing %-50s %8.1f ms\n", k, float64(v.Microseconds())/1000)
+		}
+		fmt.Fprintf(os.Stderr, "grid size %d\n", n)
+	}
 	r.Count("grid_requests", int64(n))
-	// random
+	defer func() {
+		if debugTiming {
+			hist := map[string]int{}
+			for shape := range s.seen {
+				parts := strings.Split(shape, "|")
+				hist[parts[0]+" -> "+parts[len(parts)-1]]++
+			}
+			keys := make([]string, 0, len(hist))
+			for k := range hist {
+				keys = append(keys, k)
+			}
+			sort.Strings(keys)
+			for _, k := range keys {
+				fmt.Fprintf(os.Stderr, "shapes %-60s %d\n", k, hist[k])
+			}
+		}
+	}()
 	weights := make([]int, len(routes))
 	total := 0
 	for i, rt := range routes {
@@ -294,24 +365,27 @@ func (s *store) run(budget int) {
 	for i := 0; n < budget; i++ {
 		caseID := fmt.Sprintf("%s/r%d", s.id, i)
 		n++
-		if !s.want(caseID) {
-			continue
+		// the corpus evolves with the run, so a replay re-executes the random phase up to the wanted case
+		if r.Only != "" && !(strings.HasPrefix(r.Only, s.id+"/r") || r.Only == s.id) {
+			break
 		}
 		rng := r.Rand(caseID)
-		x := rng.Intn(total)
-		k := 0
-		for x >= weights[k] {
-			x -= weights[k]
-			k++
-		}
-		s.evaluate(caseID, s.random(rng, routes[k]))
-	}
-	if r.Only == "" {
-		for _, rt := range routes {
-			if s.reached[rt.key()] == 0 {
-				r.Violate("harness|route-never-reached|"+rt.key(), "no generated request was routed to this registered route", s.id, nil)
+		var q *Req
+		if len(s.corpus) > 0 && rng.Intn(100) < 35 {
+			q = s.mutateReq(rng, s.corpus[rng.Intn(len(s.corpus))])
+			r.Count("novelty_guided_requests", 1)
+		} else {
+			x := rng.Intn(total)
+			k := 0
+			for x >= weights[k] {
+				x -= weights[k]
+				k++
 			}
+			q = s.random(rng, routes[k])
 		}
-		r.Count("routes_exercised_per_store", int64(len(s.reached)))
+		s.evaluate(caseID, q)
+		if r.Only == caseID {
+			break
+		}
 	}
 }
